@@ -39,6 +39,9 @@ CLAIMS = {
     "C13": dict(tech=TECH, ref="§5-C13",
                 text="Proof over ALL schedules with worker deaths at any point: if a worker died with anything undelivered (at least its sentinel) the parent never reports success (death_detected, from done_complete's invariant), `failed` is reached only when some worker has a non-zero exit code, a dead worker's loss is permanent, and from every quiescent state after such a death the parent's drain ends in `failed`, i.e. exit status 1, never a hang (quiescent_death_fails, quiescent_terminates). Correspondence: real realign_gaf under scripted schedules with one death at every possible point (exhaustive for 2 workers x 1 record, cut at the tier's limit in quick) and random larger ones with several exit codes.",
                 note=BASE + "'A point of its batch' is read as any point up to the delivery of the worker's sentinel; a worker killed after everything reached the pipe leaves a complete output and success is reported (stated). Channel operations are atomic with respect to death: a kill inside a pipe write or while holding the queue lock is CPython/OS behaviour the model cannot exhibit (partial in that sense)."),
+    "C12": dict(tech=TECH, ref="§5-C12",
+                text="Proof (conditional on the foreign aligner's contract, which is an explicit hypothesis and is monitored): the executable checker cigarValid decides the inductive definition of an end-to-end alignment (cigarValid_iff); a valid alignment consumes both strings exactly; the printed CIGAR parses back to the operations the tallies were taken from, match count and block length agree with it, 'M' is never emitted (tally_agrees, parse_render); all other columns and optional fields are unchanged (untouched); alignments of more than 60 000 read bases pass through unchanged (passthrough); realign_record assembles the full statement under AlignerContract. Correspondence/monitor: the REAL run_realign (real multiprocessing, WFA2) on generated reads; for every output record the Lean driver re-derives the path slice with its own graph model, runs the proved checker on the CIGAR the tool wrote, compares tallies, cost(out) <= cost(in) under the aligner's penalties, untouched columns/tags and the pass-through guard.",
+                note=BASE + "PARTIAL: WFA2-lib/pywfa is C code outside every theorem (AlignerContract assumed, monitored per case); pysam.FastaFile.fetch assumed to return the read slice; penalties 4/6/2 read from pywfa's defaults."),
 }
 
 IN_PROGRESS = "check under construction in this round; not claimed until its proofs and correspondence run green"
